@@ -48,7 +48,8 @@ def selfvalidate(rep, pid):
     vs.append(dict(pid=pid, name="twin: every local variable renamed (prefix tmp_)", expect="silent", edits=[], tier="quick", mentions=None, transform="rename_locals",
                    suffix="", prefix="tmp_"))
     for kind, what in (("flip_comparisons", "every comparison written the other way round (a < b as b > a)"), ("matmul_operator", "np.dot(a, b) written a @ b"),
-                       ("swap_branches", "every if/else written with the negated test and swapped branches")):
+                       ("swap_branches", "every if/else written with the negated test and swapped branches"),
+                       ("numpy_alias", "numpy imported under another alias")):
         vs.append(dict(pid=pid, name=f"twin: {what}", expect="silent", edits=[], tier="quick", mentions=None, transform=kind))
     with cf.ThreadPoolExecutor(min(16, os.cpu_count() or 4)) as ex:
         res = list(ex.map(selftest.run_variant, vs))
